@@ -179,6 +179,9 @@ def run(rep, pdb, tier):
         dets = "starts from the permutation (.1)=%s forward 0..i=%s backward rev, i+1..rows=%s divide by lu[(i,i)]=%s returns inv=%s" % (starts_perm, okf, okb, okd, ret)
     rep.add("inverse-shape", "inverse solves L U X = P column by column: forward sweep 0..i, backward sweep over (0..rows).rev() with inner i+1..rows, then division by lu[(i,i)]", oki, inv["body"], dets, where=loc(inv["body"]))
     n_sites = rule_index_kinds(rep, pdb, [lu, det, inv])
+    from .c01 import check_early_returns
+    check_early_returns(rep, pdb, "early-return", names=("lu_decomp_in_place", "determinant", "inverse"))
+    rep.floor("early-return/", 3)
     rep.floor("intact/", 2)
     rep.floor("zero-pivot/", 2)
     rep.floor("index-kinds/", 20)
